@@ -147,8 +147,8 @@ impl Check for C11 {
 	fn runs(&self, tier: Tier) -> u64 {
 		let n = ieng::indicators().len() as u64;
 		match tier {
-			Tier::Quick => n * 300,
-			Tier::Thorough => n * 8_000,
+			Tier::Quick => n * 1_500,
+			Tier::Thorough => n * 30_000,
 		}
 	}
 	fn generate(&self, root: &Rng, i: u64, tier: Tier) -> Case {
